@@ -104,7 +104,7 @@ CHECKS = {
     ),
     "C08": dict(
         bins=["c08"], replay_bin="c08", campaigns=lambda tier, seed: [dict(name="c08", bin="c08", shards=16, timeout=3000)], level="exploration",
-        rule=("pump patterns prefix(state) + unit^k + suffix over 55 (parser state, unit) pairs on both directions (header lines with the same / distinct / empty / missing names, folded "
+        rule=("pump patterns prefix(state) + unit^k + suffix over 63 (parser state, unit) pairs on both directions (header lines with the same / distinct / empty / missing names, folded "
               "lines, whitespace, NUL bytes, empty lines before a message, request-line and status-line whitespace, percent escapes, dot segments, query / cookie / urlencoded / "
               "digest parameters, chunks, chunk-size leading zeros / extensions / whitespace+digits / empty lines, trailers, multipart parts / part headers / data lines / "
               "near-boundary lines, pipelined requests, HTTP/0.9 junk, Content-Encoding token lists, interim 100 responses, bodies without status line) x generated unit "
